@@ -47,6 +47,11 @@ def run(P, rep, tier):
     from . import c01
 
     rep.attempt(c01.r4_markers, P, rep, ctx)
+    # "after patches, copies, moves, merge": the IH5 copy must place every copied file at its own relative path and must not
+    # drop a child silently (copy coverage rules of C05.R4)
+    from . import c05
+
+    rep.attempt(c05.r4_copy_coverage, P, rep, ctx)
     rep.floor("C17.R1", 4)
     rep.floor("C17.R2", 5)
     rep.floor("C17.R3", 7)
